@@ -41,6 +41,14 @@ CHECKS = {
    design_ref='DESIGN.md section 6 / C05',
    technique='Coq-verified checker applied to implementation outputs + proof of the invariant on the model + correspondence',
    note=TB + " Partial: that the model's own peer list tiles the address space (elementary partition) is established by the verified checker on every run, not yet by a theorem."),
+ 'C15': dict(
+   text="Machine-checked proof (Coq) over ALL finite histories of InsertObject / DeleteObject / SetResources / ClearResources / CheckIfAllowed on the engine state machine (Model/Engine.v, with the owner-keyed verdict cache): "
+        "an invariant (every cache entry equals the cache-less verdict of the current objects) is kept by every operation, hence every answer equals the fresh answer; ANPs inserted in any order yield the same applied list; deletes of absent objects are no-ops. "
+        "Tied to /repo by random histories (biased to query / update a dependency / same query, in-place updates, fresh-copy deletes) answered by the real engine, by a fresh real engine holding the current objects, and by the model.",
+   design_ref='DESIGN.md section 6 / C15',
+   technique='Coq proof (cache invariant by induction over operation histories, refinement to cache-less evaluation) + history correspondence with fresh-engine oracle',
+   note=TB + " Hypotheses of the theorem: pods sharing namespace/owner/labels share container ports where the cache is consulted (the engine's own assumption; a _needed example shows it is necessary); histories contain pods, not workload objects. "
+        "The LRU is modelled as a map without eviction (a superset). Ten defects found by this check were repaired by fix: commits (known_findings.json)."),
  'C19': dict(
    text="Machine-checked proof (Coq): (1) for ANY correct comparison sort modelled as a decision tree, running it with the Go callback records an error whenever two priorities are equal and (n>=2) whenever one is "
         "out of range — so detection cannot depend on sort.Slice internals; (2) in the model of addObjectsByKind every listed conflict (same priority, out-of-range priority, same ANP name, same NetworkPolicy name, "
